@@ -194,12 +194,17 @@ def _solve(eng, obl, timeout_ms, want_model=False, cfg=None):
     for k, v in (cfg or {}).items():
         s.set(k, v)
     s.add(*obl.hyps)
-    if "prefix_elems" in acc_fn(obl):
+    fns = acc_fn(obl)
+    if "prefix_elems" in fns:
         from .spec import pe_axioms
         s.add(*pe_axioms(full=bool(eng.cur is not None and eng.cur.ghost.get("pe_full"))))
         if eng.cur is not None and eng.cur.ghost.get("pe_lemma"):
             from .spec import pe_remaining_lemma
             s.add(pe_remaining_lemma())
+    if "vadd" in fns:
+        from .spec import VADD
+        a, b = z3.Int("a!va"), z3.Int("b!va")
+        s.add(z3.ForAll([a, b], VADD(a, b) == VADD(b, a), patterns=[VADD(a, b)]))
     if eng.ground is None:
         s.add(*eng.heap_axioms(z3.Int("alloc0"), fields))
     else:
@@ -324,13 +329,14 @@ def verify_one(args):
         for nm, obls in groups.items():
             status, tt, detail = "proved", 0.0, ""
             for o in obls:
-                r, dt, _, _ = _solve(eng, o, timeout)
+                r, dt, _, sv = _solve(eng, o, timeout)
                 tt += dt
                 if r != "unsat":
                     # quantified queries are sensitive to incidental naming and load:
                     # `unsat` from any configuration is a proof, so retry before giving up
-                    for cfg in RETRY_CONFIGS:
-                        r, dt, _, _ = _solve(eng, o, timeout, cfg=cfg)
+                    for cfg in RETRY_CONFIGS + [{"timeout": timeout * 5}]:
+                        cfg = dict(cfg)
+                        r, dt, _, sv = _solve(eng, o, cfg.pop("timeout", timeout), cfg=cfg)
                         tt += dt
                         if r == "unsat":
                             retried.append(o.name)
@@ -338,7 +344,11 @@ def verify_one(args):
                 if r != "unsat":
                     status = "open"
                     detail = o.detail
-                    failed[nm] = r
+                    try:
+                        why = sv.reason_unknown() if r == "unknown" else ""
+                    except Exception:
+                        why = ""
+                    failed[nm] = r + (" (%s)" % why if why else "")
                     break
             stime += tt
             res.append({"name": nm, "status": status, "time_s": tt, "n_vcs": len(obls),
@@ -462,5 +472,8 @@ if __name__ == "__main__":
         if o.status != "proved":
             bad += 1
             print(o.status.upper(), o.name, "|", o.detail[:400], "|", o.model)
+    if os.environ.get("PYVC_TIMES"):
+        for o in sorted(r.obligations, key=lambda o: -o.time_s)[:12]:
+            print("  %.2fs %s" % (o.time_s, o.name))
     print("%d obligations, %d not proved, %d functions fully proved, solver %.2fs" %
           (len(r.obligations), bad, len(r.functions), r.solver_time["z3"]))
